@@ -29,7 +29,8 @@ ASSUMPTIONS = [
     'a body that kills itself keeps running until its next yield (a generator cannot be pre-empted)',
     'a generator (re)started from inside a frame, not yet run in that frame, may get a step in that frame or '
     'only in the next one',
-    'generators that already returned are not started again (counted exclusion)',
+    'a generator that already returned may be started again from outside (it is released at its next turn without '
+    'running anything); operations on such a generator from inside bodies are not generated',
     'a body may raise once (user code failing): the frame is abandoned, and after that only "the finished '
     'generator is released within two frames, kill of it raises ValueError, later frames do not fail" is judged; '
     'CPython reference counting for the release clause',
@@ -113,6 +114,7 @@ class Run:
         self.remaining = [None] * self.n
         self.pos = [0] * self.n
         self.finished = [False] * self.n
+        self.zombie = [False] * self.n      # finished generators that were started again (nothing left to run)
         self.retval = [None] * self.n
         self.ever_started = [False] * self.n
         # release bookkeeping: None, or a dict describing when the dead generator must be gone
@@ -217,6 +219,11 @@ class Run:
             except (ValueError, TypeError):
                 pass
             return
+        if self.zombie[j] and inside is not None:
+            # whether an exhausted-but-restarted generator has already been released in this very frame depends on
+            # the order inside the frame: operations on it from inside bodies are not generated
+            self.flags['excluded_inside_op_on_restarted_finished_generator'] += 1
+            return
         if kind == 'state':
             self.check_state(j, where)
             return
@@ -224,9 +231,17 @@ class Run:
         if g is None:
             return
         if kind == 'start':
-            if self.finished[j]:
+            if self.finished[j] and (inside is not None or self.state[j] != T):
                 self.flags['excluded_start_of_finished'] += 1
-                return
+                if self.state[j] == T:
+                    return
+            if self.finished[j] and self.state[j] == T:
+                # a generator that already returned is handed to start() again: legal; it is booked as running
+                # until its next turn, in which nothing runs (it is exhausted) and it is released - with a
+                # promise of its own whose value is None
+                self.zombie[j] = True
+                self.retval[j] = None
+                self.flags['finished_generator_started_again'] += 1
             if self.state[j] != T:
                 try:
                     self.proc.start(g)
@@ -293,6 +308,7 @@ class Run:
                     self.flags['self_kill'] += 1
                     self.ghost[j] = None        # set by on_yield / on_return of this very step
             self.state[j] = T
+            self.zombie[j] = False
             self.killed_since_process.add(j)
             if self.in_frame:
                 self.killed_in_frame.add(j)
@@ -356,6 +372,14 @@ class Run:
             self.user_error = None
             return self.after_body_raised()
         for i in self.due:
+            if self.zombie[i]:
+                if i in self.ran:
+                    self.viol('exhausted_generator_ran_a_step', coroutine=i)
+                if i not in self.killed_in_frame:
+                    self.zombie[i] = False
+                    self.state[i] = T
+                    self.ghost[i] = {'remaining': None, 'frames': 0}
+                continue
             if i not in self.ran and i not in self.killed_in_frame:
                 self.viol('active_coroutine_not_advanced_in_frame', coroutine=i)
         self.killed_since_process = set()
